@@ -228,6 +228,8 @@ func runC13(c *config) {
 	}
 }
 
+var c13Serial int
+
 func c13Child(c *config) {
 	o := c.out
 	rounds := 6
@@ -363,6 +365,50 @@ func c13Child(c *config) {
 		wg.Wait()
 		if bad != "" {
 			o.Fail("concurrent_printing", "", bad, map[string]interface{}{"module": mi, "state": "fine_grained_only"})
+		} else {
+			o.Pass("concurrent_printing")
+		}
+	}
+	// names that need quoting and that nothing in this process has printed before (whatever the identifier helpers
+	// keep between calls, they keep it here for the first time): globals, functions, parameters, blocks, comdats, types
+	for round := 0; round < 3; round++ {
+		c13Serial++
+		m := ir.NewModule()
+		for k := 0; k < 120; k++ {
+			nm := fmt.Sprintf("q %d.%d \u00e9?", c13Serial, k)
+			g := m.NewGlobalDef("g "+nm, constant.NewInt(types.I32, int64(k)))
+			g.Comdat = &ir.ComdatDef{Name: "c " + nm}
+			m.ComdatDefs = append(m.ComdatDefs, g.Comdat)
+			m.NewTypeDef("t "+nm, types.NewStruct(types.I32))
+			f := m.NewFunc("f "+nm, types.Void, ir.NewParam("p "+nm, types.I32))
+			f.NewBlock("b " + nm).NewRet(nil)
+		}
+		o.Stat("modules.fresh_quoted_names")
+		texts := make([]string, G)
+		bad := ""
+		var wg sync.WaitGroup
+		start := make(chan struct{})
+		for g := 0; g < G; g++ {
+			wg.Add(1)
+			go func(g int) {
+				defer wg.Done()
+				<-start
+				oc, msg := guard(func() error { texts[g] = m.String(); return nil })
+				if oc != ocOk {
+					texts[g] = "PANIC " + msg
+				}
+			}(g)
+		}
+		close(start)
+		wg.Wait()
+		want := m.String()
+		for g := 0; g < G; g++ {
+			if texts[g] != want {
+				bad = "a concurrent print of names that need quoting differs from the sequential text"
+			}
+		}
+		if bad != "" {
+			o.Fail("concurrent_printing", "", bad, map[string]interface{}{"state": "fresh_quoted_names"})
 		} else {
 			o.Pass("concurrent_printing")
 		}
